@@ -108,9 +108,9 @@ def lake_build(targets):
 
 
 def prop_modules(prop):
-    """the property's theorem files: Props/<prop>.lean and, when present, Props/<prop>b.lean (source-level theorems that depend on
+    """the property's theorem files: Props/<prop>.lean and, when present, Props/<prop>b.lean, <prop>c.lean, <prop>d.lean (source-level theorems that depend on
     lemmas which themselves import Props/<prop>.lean); both in namespace Hbs.<prop>"""
-    return [m for m in (prop, prop + "b") if os.path.exists(os.path.join(LEAN, "HbsModel/Props/%s.lean" % m))]
+    return [m for m in (prop, prop + "b", prop + "c", prop + "d") if os.path.exists(os.path.join(LEAN, "HbsModel/Props/%s.lean" % m))]
 
 
 def theorem_names(prop):
